@@ -235,6 +235,117 @@ let dot_tokens (h : hp) (l : n dotstmt list) (ga : int) (na : int) (ea : int) : 
 
 let cmp_name (c : comparison) : string = match c with Lt -> "Less" | Eq -> "Equal" | Gt -> "Greater"
 
+(* ---------- conc channel (C17) ---------- *)
+let parse_call (st : string array) (at : int) : (n, n) call option =
+  let nn i = nat_of_int (ios st.(at + i)) in
+  match st.(at) with
+  | "con" -> Some (CConnect (nn 1, nn 2, n_of_int (ios st.(at+3))))
+  | "try" -> Some (CTryConnect (nn 1, nn 2, n_of_int (ios st.(at+3))))
+  | "dis" -> Some (CDisconnect (nn 1, n_of_int (ios st.(at+2))))
+  | "iso" -> Some (CIsolate (nn 1))
+  | "deg" -> Some (CDegree (nn 1))
+  | "ideg" -> Some (CInDegree (nn 1))
+  | "orph" -> Some (CIsOrphan (nn 1))
+  | "conn" -> Some (CIsConnected (nn 1, n_of_int (ios st.(at+2))))
+  | "iter" -> Some (CIter (nn 1))
+  | "iterin" -> Some (CIterIn (nn 1))
+  | _ -> None
+
+let cres_str (h : hp) (r : n cres) : string =
+  match r with
+  | RO o -> log_str o
+  | RNat k -> string_of_int (int_of_nat k)
+  | RBool b -> string_of_int (b2i b)
+  | REdges l -> "[" ^ String.concat "" (List.map (fun ((a, b), e) -> fmt_edge h a b e) l) ^ "]"
+
+let conc_obs (directed : bool) (c : (n, z, n) config) (evs : ((nat * nat) * bool) list) : string =
+  let h = c.c_heap in
+  let b = Buffer.create 256 in
+  Buffer.add_string b "ev";
+  List.iter (fun ((t, u), w) -> Buffer.add_string b (Printf.sprintf " %d:%s:%s" (int_of_nat t) (key_str h u) (if w then "w" else "r"))) evs;
+  List.iteri (fun i t ->
+    Buffer.add_string b (Printf.sprintf " | t%d %s" i
+      (match t.t_status with TRun -> "running" | TDone -> "done" | TPanic -> "panic" | TFuel -> "fuel"));
+    List.iter (fun r -> Buffer.add_string b (" " ^ cres_str h r)) t.t_results) c.c_threads;
+  Buffer.add_string b " | pois";
+  List.iter (fun k -> Buffer.add_string b (" " ^ string_of_int k))
+    (List.sort compare (List.map (fun u -> match keyof h u with Some k -> int_of_n k | None -> -1) c.c_poisoned));
+  Buffer.add_string b " | snap";
+  let poisoned u = List.exists (fun v -> int_of_nat v = int_of_nat u) c.c_poisoned in
+  List.iter (fun u ->
+    if poisoned u then Buffer.add_string b (Printf.sprintf " [%s poisoned]" (key_str h u))
+    else if directed then begin
+      Buffer.add_string b (Printf.sprintf " [%s out" (key_str h u));
+      List.iter (fun (t, e) -> Buffer.add_string b (fmt_edge h u t e)) (h.outs u);
+      Buffer.add_string b " in";
+      List.iter (fun (s, e) -> Buffer.add_string b (fmt_edge h s u e)) (h.ins u);
+      Buffer.add_string b "]"
+    end else begin
+      Buffer.add_string b (Printf.sprintf " [%s adj" (key_str h u));
+      List.iter (fun (t, e) -> Buffer.add_string b (fmt_edge h u t e)) (adj_u h u);
+      Buffer.add_string b "]"
+    end) (ids h);
+  Buffer.contents b
+
+let conc_fuel : nat = nat_of_int 5000
+
+(* collect the thread programs of a case: thr <tid> <call...> *)
+let thread_progs (c : case) : (n, n) call list list =
+  let tbl : (int, (n, n) call list) Hashtbl.t = Hashtbl.create 4 in
+  let maxt = ref (-1) in
+  List.iter (fun st ->
+    if st.(0) = "thr" then begin
+      let t = ios st.(1) in
+      if t > !maxt then maxt := t;
+      match parse_call st 2 with
+      | Some cl -> Hashtbl.replace tbl t ((try Hashtbl.find tbl t with Not_found -> []) @ [cl])
+      | None -> ()
+    end) c.steps;
+  List.init (!maxt + 1) (fun t -> try Hashtbl.find tbl t with Not_found -> [])
+
+(* is the schedule serial: a thread is only preempted between two of its calls *)
+let is_serial (directed : bool) (c0 : (n, z, n) config) (sched : nat list) : bool =
+  let c = ref c0 and prev = ref (-1) and ok = ref true in
+  let nres t = match List.nth_opt (!c).c_threads t with Some th -> List.length th.t_results | None -> 0 in
+  let midcall = ref false in
+  List.iter (fun tid ->
+    let t = int_of_nat tid in
+    if !prev >= 0 && t <> !prev && !midcall then ok := false;
+    let before = nres t in
+    let (c1, _) = cstep keqb directed !c tid in
+    c := c1;
+    let th = List.nth (!c).c_threads t in
+    midcall := (nres t = before) && (match th.t_status with TRun -> true | _ -> false);
+    prev := t) sched;
+  !ok
+
+let explore_cases (cls : char) (cases : case list) (oc : out_channel) (limit : int) : unit =
+  List.iter (fun c ->
+    if c.cls = cls && List.exists (fun st -> st.(0) = "explore") c.steps then begin
+      let directed = (cls = 'D') in
+      let step = if directed then step_d keqb else step_u keqb in
+      let h = ref empty_heap in
+      List.iter (fun st -> match parse_op st 0 with
+        | Some o -> let (h1, _) = step !h o in h := h1
+        | None -> ()) c.steps;
+      let cfg = init_config keqb directed !h (thread_progs c) in
+      let scheds = explore keqb directed conc_fuel cfg [] in
+      let n = List.length scheds in
+      let pre = List.filter (fun st -> st.(0) <> "explore") c.steps in
+      let nonserial = ref 0 in
+      List.iteri (fun i sc ->
+        let serial = is_serial directed cfg sc in
+        (* serial schedules are always replayed (they define the sequential outcomes); the others up to the limit *)
+        if serial || limit <= 0 || !nonserial < limit then begin
+          if not serial then incr nonserial;
+          Printf.fprintf oc "case %s_s%d%s %c\n" c.name i (if serial then "S" else "") cls;
+          List.iter (fun st -> Printf.fprintf oc "%s\n" (String.concat " " (Array.to_list st))) pre;
+          Printf.fprintf oc "sched %s\n" (String.concat " " (List.map (fun t -> string_of_int (int_of_nat t)) sc))
+        end) scheds;
+      Printf.fprintf oc "# %s: %d schedules\n" c.name n
+    end) cases
+
+
 let run_case (oc : out_channel) (c : case) : unit =
   Printf.fprintf oc "case %s\n" c.name;
   let directed = (c.cls = 'D') in
@@ -306,6 +417,13 @@ let run_case (oc : out_channel) (c : case) : unit =
            | DeOk (h2, g2) -> Printf.sprintf "%s de ok %s" (order_str order) (graph_snap directed h2 g2)
            | DeMissing _ -> Printf.sprintf "%s de err" (order_str order))
       | "gdebytes" -> "exercise-only"
+      | "thr" -> "ok"
+      | "sched" ->
+          let cfg = init_config keqb directed !h (thread_progs c) in
+          let sched = List.map (fun x -> nat_of_int (ios x)) (List.tl (Array.to_list st)) in
+          let (c1, evs) = run_sched keqb directed conc_fuel cfg sched [] in
+          h := c1.c_heap;
+          conc_obs directed c1 evs
       | "mac" ->
           (* mac <form> <nitems> { key val nedges { target evalue }* }* *)
           let pos = ref 3 in
@@ -408,6 +526,7 @@ let run_case (oc : out_channel) (c : case) : unit =
            | _ -> "bad-algo")
       | other -> "unknown-step " ^ other in
     Printf.fprintf oc "%d %s\n" si obs) c.steps
+
 
 
 (* ---------- own channel (C19) ---------- *)
@@ -538,6 +657,18 @@ let run_own_case (oc : out_channel) (c : case) : unit =
     Printf.fprintf oc "%d %s%s\n" si body (rel_str rel)) c.steps
 
 let () =
+  if Array.length Sys.argv >= 5 && Sys.argv.(1) = "explore" then begin
+    (* driver explore <D|U> <casefile> <outfile> [limit] *)
+    let cls = Sys.argv.(2).[0] in
+    let ic = open_in Sys.argv.(3) in
+    let cases = parse_cases ic in
+    close_in ic;
+    let oc = open_out Sys.argv.(4) in
+    let limit = if Array.length Sys.argv > 5 then int_of_string Sys.argv.(5) else 0 in
+    explore_cases cls cases oc limit;
+    close_out oc;
+    exit 0
+  end;
   if Array.length Sys.argv < 4 then (prerr_endline "usage: driver <D|U> <casefile> <outfile>"; exit 2);
   let cls = Sys.argv.(1).[0] in
   let ic = open_in Sys.argv.(2) in
